@@ -499,8 +499,15 @@ def check_dispatch(res, facts):
     # Sub / SubAssign through Neg + AddAssign (symbolic at the group level)
     from rules import lincomb
     r2 = res.rule("R-LINCOMB.points", "Sub/SubAssign/Add by-value forms on points are defined through Neg and AddAssign", 4)
-    f = lambda s: ("short_weierstrass::group::Projective<" in s or "twisted_edwards::group::Projective<" in s)
-    lincomb.check_operator_impls(r2, facts, "ws", "ark_ec", f, transparent=())
+    f = lambda s: ("short_weierstrass::group::Projective<" in s or "twisted_edwards::group::Projective<" in s
+                   or "short_weierstrass::affine::Affine<" in s or "twisted_edwards::affine::Affine<" in s)
+
+    def affine_in_place(fn, key):
+        # operators on AFFINE points have no formulas of their own on the pinned tree: they lift to the projective
+        # kernels proved under R-POLY.  A formula written out in place is covered by no proof here.
+        if "::affine::Affine<" in ((fn.impl or {}).get("self") or "") and fn.name in ("add", "sub", "add_assign", "sub_assign"):
+            r2.bad(key, "operator on affine points is not defined through the projective kernels (into_group / add_assign / neg): a formula written out in place is covered by no identity here (e.g. an a = -1 Edwards addition on a curve with a != -1)", fn.loc)
+    lincomb.check_operator_impls(r2, facts, "ws", "ark_ec", f, transparent=(), on_undecided=affine_in_place)
 
 
 def transitive(cd, bb):
